@@ -903,6 +903,13 @@ class Explorer:
                 changed = [k for k in TRACKED if k not in ("response", "scope") and _canon(pre.get(k, 'absent')) != _canon(post.get(k, 'absent'))]
                 if changed:
                     self.report("C12.R2", f"{mtype} in {pre_state}: changes {'/'.join(changed)} then raises {r.exc} at {r.site}", f"{self.cls}.app_send raises {r.exc} for {label} ({r.detail or 'raise'}) but has already changed {changed}: later messages and the application's exit take the wrong arm", word, r.where)
+        # ---- the last body message ends the response
+        if self.cls == "HTTPStream" and kind == "app" and mtype == "http.response.body" and "more_body=False" in label and pre_state == "RESPONSE" and outcome == "ok" and pre.get("closed") is not True:
+            resp = pre.get("response")
+            wants_trailers = isinstance(resp, dict) and resp.get("trailers", False) is True
+            if not wants_trailers and "EndBody" not in emits:
+                status = resp.get("status") if isinstance(resp, dict) else "?"
+                self.report("C02.R1", f"last body message does not end the response (status {status}, method {self.params.get('method')})", f"{self.cls}: http.response.body with more_body=False (status {status}, {self.params.get('method')} request) emitted {emits}: the response is never ended (no EndBody / StreamClosed)", word, line)
         # ---- anything after completion raises (HTTP; for WebSocket post-close sends are silent by C03)
         if self.cls == "HTTPStream" and kind == "app" and label != "None" and pre_state == "CLOSED" and outcome == "ok":
             self.report("C12.R1t", f"{mtype} accepted after the response was completed (state CLOSED)", f"{self.cls}.app_send accepts {label} silently although the response is complete: a message after completion must raise into the application", word, line)
